@@ -1,6 +1,7 @@
 (* C06 - property keys and enum literals equal the names serde uses on the wire.
-   Model: Model/C06Serde.v (faithful: token printing, substring scanners, skip filter, naming through
-   apply_to_field for fields AND variants). Specification: Spec/C06SerdeRule.v (serde_derive case.rs).
+   Model: Model/C06Serde.v (faithful: token printing, substring scanners, skip filter for fields and
+   variants, compute_field_name for fields, compute_variant_name for variants - the code with the
+   repairs C06-1-variant-rule and C06-6-variant-skip). Specification: Spec/C06SerdeRule.v (serde_derive case.rs).
    Only statements, [exact], examples and [Print Assumptions] live here. *)
 From Coq Require Import String Ascii.
 From Coq Require Import List Arith Bool.
@@ -11,7 +12,7 @@ Local Open Scope list_scope.
 
 (* For every container kind, container attribute list, ASCII identifier and item attribute list of the
    domain (rename = any string, skip, any other name or name = any string, in any order, in any number
-   of #[serde] attributes) outside the six recorded classes: the emitted keys / literals are exactly
+   of #[serde] attributes) outside the four remaining classes: the emitted keys / literals are exactly
    serde's wire names - an item rename wins, the container rule is the field rule for struct fields
    and the variant rule for variants, unattributed items keep their Rust name, an item is absent iff
    it carries skip - and the model never panics. *)
@@ -33,13 +34,17 @@ Theorem C06_spec_ignores_others : forall c c' : container,
   same_modulo_others c c' -> serde_wire_names c = serde_wire_names c'.
 Proof. exact spec_ignores_others. Qed.
 
-(* the naming routine as called (with its byte slices) never panics on an identifier and computes
-   serde's field rule *)
+(* the naming routines as called: apply_naming_convention (total since the camelCase guard) computes
+   serde's field rule, apply_to_variant (with its byte slices) never panics on an identifier and
+   computes serde's variant rule *)
 Theorem C06_field_rule : forall (r : rule) (s : str),
-  ident_ok s = true -> apply_to_field_b r s = Ok (field_rule r s).
+  ident_ok s = true -> apply_naming_convention r s = field_rule r s.
 Proof. exact apply_field_ok. Qed.
+Theorem C06_variant_rule : forall (r : rule) (s : str),
+  ident_ok s = true -> apply_to_variant_b r s = Ok (variant_rule r s).
+Proof. exact apply_variant_ok. Qed.
 
-(* class C06-1 is exact in one direction: outside it the field rule is the variant rule *)
+(* where the repaired defect C06-1 was visible: outside rules_differ the two rules coincide *)
 Theorem C06_rules_agree : forall (r : rule) (s : str),
   ident_ok s = true -> rules_differ r s = false -> field_rule r s = variant_rule r s.
 Proof. exact rules_agree. Qed.
@@ -55,10 +60,17 @@ Theorem C06_skip_test : forall g : group,
   field_skip (group_string g) = existsb skip_in g && negb (existsb skipser_in g).
 Proof. exact field_skip_group. Qed.
 
-(* each recorded class fails on the faithful model: computed witnesses *)
-Theorem C06_variant_rule_refuted :
-  refutes kf_variant_rule w1 [L "INPROGRESS"; L "DONE"] /\ serde_wire_names w1 = [L "IN_PROGRESS"; L "DONE"].
-Proof. exact variant_rule_refuted. Qed.
+(* repaired defects: the old witnesses of C06-1 and C06-6 now satisfy the property, and the oracle
+   rejects the old output *)
+Theorem C06_variant_rule_repaired : in_domain w1 = true /\ kf_C06 w1 = false /\
+  emitted_keys default_field_case w1 = Ok [L "IN_PROGRESS"; L "DONE"] /\ c06_ok w1 [L "IN_PROGRESS"; L "DONE"] = true
+  /\ c06_ok w1 [L "INPROGRESS"; L "DONE"] = false.
+Proof. exact variant_rule_repaired. Qed.
+Theorem C06_variant_skip_repaired : in_domain w6 = true /\ kf_C06 w6 = false /\
+  emitted_keys default_field_case w6 = Ok [L "Active"] /\ c06_ok w6 [L "Active"] = true /\ c06_ok w6 [L "Active"; L "Gone"] = false.
+Proof. exact variant_skip_repaired. Qed.
+
+(* each remaining class fails on the faithful model: computed witnesses *)
 Theorem C06_skip_text_refuted : refutes kf_skip_text w2 [L "a"] /\ serde_wire_names w2 = [L "a"; L "b"; L "c"].
 Proof. exact skip_text_refuted. Qed.
 Theorem C06_skip_beside_refuted : refutes kf_skip_beside w3 [L "a"; L "b"] /\ serde_wire_names w3 = [L "a"].
@@ -68,8 +80,10 @@ Theorem C06_rename_escape_refuted :
 Proof. exact rename_escape_refuted. Qed.
 Theorem C06_rename_text_refuted : refutes kf_rename_text w5 [L "x"] /\ serde_wire_names w5 = [L "e"].
 Proof. exact rename_text_refuted. Qed.
-Theorem C06_variant_skip_refuted : refutes kf_variant_skip w6 [L "Active"; L "Gone"] /\ serde_wire_names w6 = [L "Active"].
-Proof. exact variant_skip_refuted. Qed.
+Theorem C06_skip_text_variant_refuted : refutes kf_skip_text w2e [L "A"] /\ serde_wire_names w2e = [L "A"; L "B"].
+Proof. exact skip_text_variant_refuted. Qed.
+Theorem C06_skip_beside_variant_refuted : refutes kf_skip_beside w3e [L "A"; L "B"] /\ serde_wire_names w3e = [L "A"].
+Proof. exact skip_beside_variant_refuted. Qed.
 (* inside C06-3 inertness fails: skip_serializing_if beside skip brings the field back *)
 Theorem C06_other_attrs_inert_refuted :
   same_modulo_others w3' w3 /\ in_domain w3' = true /\ in_domain w3 = true /\ kf_C06 w3' = false /\
@@ -90,11 +104,12 @@ Example C06_ex_struct :
   emitted_keys default_field_case ex_struct = Ok [L "userId"; L "firstLastName"; L "full-name"; L "is it = , ok"].
 Proof. vm_compute. repeat split. Qed.
 Definition ex_enum : container :=
-  {| c_kind := KEnum; c_attrs := [[CRenameAll (L "camelCase")]];
-     c_items := [it0 "InProgress" []; it0 "HTTPError" [[MOther (L "alias") (Some (L "http"))]]; it0 "Done" [[MRename (L "fin")]]] |}.
+  {| c_kind := KEnum; c_attrs := [[CRenameAll (L "kebab-case")]];
+     c_items := [it0 "InProgress" []; it0 "HTTPError" [[MOther (L "alias") (Some (L "http"))]]; it0 "Done" [[MRename (L "fin")]];
+                 it0 "Gone" [[MSkip; MOther (L "alias") (Some (L "x"))]]] |}.
 Example C06_ex_enum :
   in_domain ex_enum = true /\ kf_C06 ex_enum = false /\
-  emitted_keys default_field_case ex_enum = Ok [L "inProgress"; L "hTTPError"; L "fin"].
+  emitted_keys default_field_case ex_enum = Ok [L "in-progress"; L "h-t-t-p-error"; L "fin"].
 Proof. vm_compute. repeat split. Qed.
 (* an unattributed struct keeps the Rust names *)
 Example C06_ex_plain :
@@ -109,20 +124,23 @@ Example C06_ex_inert :
                    it0 "_a__b1" [[MRename (L "is it = , ok")]]] |}.
 Proof. repeat split. Qed.
 Example C06_ex_rules_agree : ident_ok (L "InProgress") = true /\ rules_differ RCamel (L "InProgress") = false
-  /\ rules_differ RScreamingSnake (L "InProgress") = true.
+  /\ rules_differ RScreamingSnake (L "InProgress") = true /\ variant_rule RScreamingSnake (L "InProgress") = L "IN_PROGRESS".
 Proof. vm_compute. repeat split. Qed.
 
 Print Assumptions C06_names.
 Print Assumptions C06_other_attrs_inert.
 Print Assumptions C06_spec_ignores_others.
 Print Assumptions C06_field_rule.
+Print Assumptions C06_variant_rule.
 Print Assumptions C06_rules_agree.
 Print Assumptions C06_parse_rename.
 Print Assumptions C06_skip_test.
-Print Assumptions C06_variant_rule_refuted.
+Print Assumptions C06_variant_rule_repaired.
+Print Assumptions C06_variant_skip_repaired.
 Print Assumptions C06_skip_text_refuted.
 Print Assumptions C06_skip_beside_refuted.
 Print Assumptions C06_rename_escape_refuted.
 Print Assumptions C06_rename_text_refuted.
-Print Assumptions C06_variant_skip_refuted.
+Print Assumptions C06_skip_text_variant_refuted.
+Print Assumptions C06_skip_beside_variant_refuted.
 Print Assumptions C06_other_attrs_inert_refuted.
